@@ -81,3 +81,18 @@ class Repo:
             'lines': [node.lineno, node.end_lineno],
             'sha256': self.sha(qualname)[:16],
         }
+
+
+def patched_repo(patches, root=None):
+    """Repo whose module sources have textual replacements applied in memory (canary mutants).
+    patches: [(module, old, new)]; returns (repo, missing) where missing lists anchors not found."""
+    repo = Repo(root)
+    missing = []
+    for module, old, new in patches:
+        info = repo.modules[module]
+        if info.src.count(old) != 1:
+            missing.append((module, old))
+            continue
+        info.src = info.src.replace(old, new)
+        info.tree = ast.parse(info.src, filename=info.path)
+    return repo, missing
